@@ -424,6 +424,9 @@ pub fn record_transfers(a: &Args, out: &mut TraceOut, heavy: bool) -> Value {
         one(out, "send_pages", 0, ALL_TYPES[2], vec![three, big, two], 0, 0);
         let mid: Vec<Page<'static>> = (0..40).map(|i| Page::new(PageId(i as u8), 212, 64)).collect();
         one(out, "send_pages", 0x100, ALL_TYPES[3], mid, 0, 0);
+        // more chunks in one transfer than the 16-bit count field can hold: the count is announced modulo 2^16
+        let huge: Vec<Page<'static>> = (0..17).map(|i| Page::new(PageId(i as u8), 65532, 1)).collect();
+        one(out, "send_pages", 3, ALL_TYPES[4], huge, 0, 0);
     }
     // lists of 0..5 random small pages and from_bytes pages
     for k in 0..(if thorough { 200 } else { 30 }) {
